@@ -306,7 +306,103 @@ def rule_z6(ctx, facts):
              "all %d joining sites agree on the refusals" % len(vals) if same else "the joining rules differ between sites: %s" % {strip_generics(k): v for k, v in found.items()})
 
 
+def rule_z7(ctx, facts):
+    """stride claiming: a participant claims [next_bound, next_index) by a CAS on transfer_index from a freshly loaded next_index to
+    next_index - stride (or 0), and on success works exactly on that range"""
+    tr = facts.body("map::HashMap::transfer")
+    ev = evaluator(tr)
+    fl = flow(tr)
+    TI = ("map::HashMap", "transfer_index")
+    cass = [c for c in tr.calls if is_std_atomic(c) == "compare_exchange" and TI in receiver_field(tr, c, 0) and not tr.is_cleanup(c.b)]
+    loads = [c for c in tr.calls if is_std_atomic(c) == "load" and TI in receiver_field(tr, c, 0) and not tr.is_cleanup(c.b)]
+    if len(cass) != 1 or not loads:
+        ctx.fail_closed("Z7: expected one CAS and a load of transfer_index in transfer, found %d/%d" % (len(cass), len(loads)))
+        return
+    cas = cass[0]
+    exp, new = ev.operand(cas.args[1]), ev.operand(cas.args[2])
+    L = None
+    for l in loads:
+        if exp is not TOP and exp == Aff.sym(("call", l.b)):
+            L = l
+    ctx.inst("Z7", tr, "claim CAS expects the freshly loaded index", cas.span, L is not None,
+             "expected value is the transfer_index load at %s" % L.span if L else "the stride-claim CAS does not expect the value it has just loaded from transfer_index")
+    if L is None:
+        return
+    Ls = Aff.sym(("call", L.b))
+    # new value: next_index - stride, or 0 when next_index <= stride
+    nl = op_local(cas.args[2])
+    forms = []
+    if new is not TOP and len(new.symbols()) == 1 and next(iter(new.symbols()))[0] == "phi":
+        forms = ev.def_forms(next(iter(new.symbols()))[1])
+    elif new is not TOP:
+        forms = [(cas.point, new)]
+    ok_forms = True
+    desc = []
+    for pt, f in forms:
+        if f is TOP:
+            ok_forms = False
+            desc.append("?")
+            continue
+        desc.append(f.show(tr))
+        if f.is_const() and f.c == 0:
+            continue
+        rest = f - Ls
+        if len(rest.symbols()) == 1 and rest.c == 0 and all(v == -1 for v in rest.terms.values()):
+            s0 = next(iter(rest.symbols()))
+            sc = tr.call_at(s0[1]) if s0[0] == "call" else None
+            if sc is not None and callee_str(sc).endswith("cmp::max"):
+                # guarded by next_index > stride
+                g = False
+                for blk in range(len(tr.blocks)):
+                    cd = cond_of(tr, blk)
+                    if cd and cd["kind"] == "cmp" and cd["op"] == "Gt":
+                        a, b2 = ev.operand(cd["a"]), ev.operand(cd["b"])
+                        if a is not TOP and b2 is not TOP and a == Ls and b2 == Aff.sym(s0) and dominated_by_edge(tr, pt, [(blk, cd["true"])]):
+                            g = True
+                if g:
+                    continue
+        ok_forms = False
+    ctx.inst("Z7", tr, "claimed lower bound", cas.span, ok_forms and len(forms) >= 2,
+             "next_bound is next_index - stride (when next_index > stride) or 0: %s" % desc if ok_forms and len(forms) >= 2 else
+             "the new transfer_index is %s; expected next_index - stride guarded by next_index > stride, else 0: ranges overlap or bins are skipped" % desc)
+    # on success: bound := next_bound, i := next_index
+    oke, _ = ok_edge(tr, cas)
+    got_bound = got_i = False
+    if oke:
+        for bi, blk in enumerate(tr.blocks):
+            if blk["cleanup"]:
+                continue
+            for si, st in enumerate(blk["stmts"]):
+                if st["k"] == "assign" and not st["dst"]["proj"] and tr.local_name(st["dst"]["local"]) and "use" in st["rv"]:
+                    if not dominated_by_edge(tr, Point(bi, si), [oke]):
+                        continue
+                    src = op_local(st["rv"]["use"])
+                    if src is None:
+                        continue
+                    f = ev.operand(st["rv"]["use"])
+                    # only assignments in the blocks right after the won CAS (before the next claim attempt)
+                    if Point(bi, si) not in reach(tr, [Point(oke[1], 0)], avoid={L.point}):
+                        continue
+                    if nl is not None and (src == nl or src in fl.copies_of(nl)) and tr.ty(st["dst"]["local"])["s"] == "isize":
+                        got_bound = True
+                    if f is not TOP and f == Ls:
+                        got_i = True
+    ctx.inst("Z7", tr, "won claim sets (bound, i) := (next_bound, next_index)", cas.span, got_bound and got_i,
+             "the claimed range is exactly what the participant then processes" if got_bound and got_i else
+             "after winning the claim the participant does not work on [next_bound, next_index): bound set: %s, i set: %s" % (got_bound, got_i))
+    # i steps down by one, compared with bound
+    idec = False
+    for l in range(len(tr.locals)):
+        if tr.local_name(l) == "i" and tr.ty(l)["s"] == "isize":
+            for pt, f in ev.def_forms(l):
+                if f is not TOP and f == Aff({("phi", l): 1}, -1):
+                    idec = True
+    ctx.inst("Z7", tr, "index steps down by one", tr.span, idec, "i -= 1 per processed bin" if idec else "the bin index is not decremented by exactly one")
+
+
 def run(ctx, facts):
+    ctx.rule("Z7", "stride claiming: CAS(transfer_index, fresh next_index -> next_index - stride | 0); the winner processes exactly [next_bound, next_index)", floor=4)
+    rule_z7(ctx, facts)
     ctx.rule("Z1", "single finisher elected by the last sc-1 CAS; publication block gated, ordered and complete", floor=2)
     ctx.rule("Z2", "next table has twice the old length; transfer index starts at the old length", floor=2)
     ctx.rule("Z3", "resize initiation guarded by len < MAXIMUM_CAPACITY", floor=2)
